@@ -8,7 +8,9 @@ CHECK = {
         "the server receive limit used for expansion is the runner's constant serverReceiveLimit (200 KiB); varint boundaries of the padding are reached by varying message and offset, not the limit",
         "sharpness (b): peers run in-process from their exported entry points (referenceserver.RunInReferenceMode / Run, referenceclient.Run) over real loopback TCP, HTTP/1.1 and h2c, no TLS/HTTP3; one RPC at a time per shard; no wall-clock oracle (no timeouts are configured)",
         "message size for the JSON codec is the length of the JSON text produced by the same codec (internal.StrictJSONCodec) in the same binary; for the proto codec it is proto.Size",
-        "response sizes for the client-side limit are measured by running the identical request once with no client limit and re-serialising the received response message",
+        "response sizes for the client-side limit are measured by running the identical request once with no client limit and re-serialising the received response message (the harness verifies that accepted responses of the limited run have the same sizes)",
+        "incompressible responses are enumerated only with 4000 noise bytes: the server echoes request headers in map-iteration order, so compressed response bytes vary from run to run and borderline compressed sizes are not reproducible",
+        "a deadlock of the two peers is established structurally (goroutine stacks form a wait-for cycle: client inside Receive draining the response, server handler inside Receive waiting for the next request), never by a timeout",
     ],
     "manifest": {
         "engine": "ENUM",
